@@ -42,6 +42,9 @@ StableSortByKey(Key(_), s) ==
         Pos(i) == Cardinality({k \in 1..n : Key(s[k]) < Key(s[i]) \/ (Key(s[k]) = Key(s[i]) /\ k < i)}) + 1
     IN [p \in 1..n |-> s[CHOOSE i \in 1..n : Pos(i) = p]]
 
+(* the function f with f[k] = v added or replaced *)
+Put(f, k, v) == [x \in DOMAIN f \cup {k} |-> IF x = k THEN v ELSE f[x]]
+
 IsSortedBy(Less(_, _), s) == \A i \in 1..(Len(s) - 1) : Less(s[i], s[i + 1])
 
 (* Reports a failed check of a trace/observation without stopping TLC.     *)
